@@ -3,7 +3,8 @@ import time
 
 from vlib import c01_driver as D
 from vlib import c01_harness as H
-from vlib.c08_gen import build_programs, Builder
+from vlib.c08_gen import build_one, build_group, Builder
+from vlib.configs import compile_src
 from vlib.configs import configs, Config, USABLE_FLAGS
 
 LEVEL = "proof"
@@ -47,18 +48,41 @@ def run(ctx):
             return
     t0 = time.time()
     rounds = 2 if ctx.tier == "quick" else 12
-    progs = build_programs(ctx.rng("matrix"), rounds=rounds, per_prog=10)
+    mk = lambda salt: ctx.rng("matrix:" + salt)
+    # classify every (position, round) by which front end accepts it (a rejection is a compile-time outcome, not an effect-order
+    # violation; it is recorded in the evidence)
+    ref = {"legacy": Config(False, "gas", "prague"), "venom": Config(True, "gas", "prague")}
+    classes = {}
+    rejected_positions = {}
+    for rnd in range(rounds):
+        for pos in Builder.POSITIONS:
+            src = build_one(mk, pos, rnd).p.vy()
+            acc = []
+            for pipe, cfg in ref.items():
+                try:
+                    compile_src(src, cfg, formats=("bytecode",))
+                    acc.append(pipe)
+                except Exception as e:
+                    rejected_positions.setdefault(pos, {})[pipe] = f"{type(e).__name__}: {str(e).strip().splitlines()[0][:120]}"
+            if acc:
+                classes.setdefault(tuple(acc), []).append((pos, rnd))
     items = []
-    for p, unordered, labels in progs:
-        calls = [H.Call(i, []) for i in range(len(p.exts))]
-        items.append({"prog": p, "calls": calls, "unordered": {i for i, u in unordered.items() if u}, "labels": labels})
+    for acc, lst in sorted(classes.items()):
+        for k in range(0, len(lst), 10):
+            p, unordered, labels = build_group(mk, lst[k:k + 10])
+            calls = [H.Call(i, []) for i in range(len(p.exts))]
+            items.append({"prog": p, "calls": calls, "unordered": {i for i, u in unordered.items() if u}, "labels": labels,
+                          "applicable": (lambda c, acc=acc: ("venom" if c.venom else "legacy") in acc)})
     models = H.model_eval([(it["prog"], it["calls"]) for it in items], "c08", full=True)
     n_events = 0
+    n_model_reverts = 0
     for it, m in zip(items, models):
         it["model"] = m
         for r in m[0]:
             if r[0] == "ok":
                 n_events += len(r[2])
+            elif r[0] == "revert":
+                n_model_reverts += 1
             else:
                 ctx.violation("correspondence-broken", "VyCore does not evaluate a matrix program to a value",
                               {"result": str(r), "source": it["prog"].vy()[:3000]})
@@ -71,6 +95,8 @@ def run(ctx):
     per_position = {}
     for i, it in enumerate(items):
         for j, cfg in enumerate(cfgs):
+            if (i, j) not in obs:
+                continue
             st, o = obs[(i, j)]
             if st == "exc":
                 rejected[o[0]] = rejected.get(o[0], 0) + 1
@@ -105,8 +131,10 @@ def run(ctx):
     ctx.corr["positions"] = Builder.POSITIONS
     ctx.corr["per_position_runs"] = per_position
     ctx.corr["model_trace_events"] = n_events
+    ctx.corr["model_reverts"] = n_model_reverts
     ctx.corr["configs"] = [c.name for c in cfgs]
     ctx.corr["compile_rejections"] = rejected
+    ctx.corr["positions_rejected_by_a_front_end"] = rejected_positions
     ctx.corr["not_in_matrix"] = ["keyword defaults", "slice bounds", "external calls", "revert reason arguments",
                                  "aug-assignment to an array element with an effectful RHS (rejected by the compiler)"]
     ctx.corr["seconds"] = round(time.time() - t0, 1)
